@@ -129,6 +129,7 @@ pub struct FdEnt {
     pub f_type: i64,
     /// ghost for C06: mount id + fstype were both checked by libpathrs
     pub statx_seen: bool,
+    pub statx_ok: bool,
     pub statfs_seen: bool,
 }
 
@@ -146,6 +147,7 @@ pub const NO_FD: FdEnt = FdEnt {
     mnt_mask: 0,
     f_type: 0,
     statx_seen: false,
+    statx_ok: false,
     statfs_seen: false,
 };
 
@@ -284,6 +286,7 @@ impl Kernel {
             mnt_mask: kani::any(),
             f_type: kani::any(),
             statx_seen: false,
+            statx_ok: false,
             statfs_seen: false,
         };
         self.base + i as i32
@@ -825,6 +828,11 @@ pub fn k_statx<Fd: AsFd, P: AsRef<Path>>(
         c.name = name;
         c.name_len = name_len;
         c.flags = mask.bits() as u64;
+        if name_len == 0 {
+            if let Some(i) = K.idx(raw) {
+                K.fds[i].statx_seen = true; // attempted on the descriptor itself
+            }
+        }
         if K.fails() {
             c.errno = any_errno();
             K.push(c);
@@ -838,7 +846,7 @@ pub fn k_statx<Fd: AsFd, P: AsRef<Path>>(
                     Some(i) => {
                         stx.stx_mnt_id = K.fds[i].mnt_id;
                         stx.stx_mask = K.fds[i].mnt_mask;
-                        K.fds[i].statx_seen = true;
+                        K.fds[i].statx_ok = true;
                     }
                     None => {
                         stx.stx_mnt_id = kani::any();
@@ -1165,4 +1173,13 @@ pub fn scratch_set(a: u64, b: u64, c: u64, d: u64) {
 }
 pub fn scratch_get() -> (u64, u64, u64, u64) {
     unsafe { SCRATCH }
+}
+
+// symbolic "remaining tail" handed to the resolve_partial stub
+pub static mut TAIL: ([u8; super::bounds::PATH_L], usize) = ([0; super::bounds::PATH_L], 0);
+pub fn tail_set(b: &[u8; super::bounds::PATH_L], len: usize) {
+    unsafe { TAIL = (*b, len) }
+}
+pub fn tail_get() -> ([u8; super::bounds::PATH_L], usize) {
+    unsafe { TAIL }
 }
